@@ -6,6 +6,6 @@ D=$(mktemp -d /tmp/h2mut.XXXXXX)
 cp -r /repo/src "$D/src"
 ( cd "$D" && patch -s -p1 < "$P" ) || { echo "patch failed"; rm -rf "$D"; exit 3; }
 for c in "$@"; do
-  H2MON_SRC="$D/src" /verif/check "$c" --tier "${VERIF_TIER:-quick}" | grep -E "^(VIOLATION|HELD|INCONCLUSIVE|KNOWN)|key=" | cut -c1-300
+  H2MON_SRC="$D/src" H2MON_OUT="$D/out" /verif/check "$c" --tier "${VERIF_TIER:-quick}" | grep -E "^(VIOLATION|HELD|INCONCLUSIVE|KNOWN)|key=" | cut -c1-300
 done
 rm -rf "$D"
